@@ -492,21 +492,27 @@ def step (σ : St) (pre post : List String) : St × Verdict :=
           let (m, r) := handleBeginUnstake (withFee cur sg fee) a sg
           judge σ "unstake" h 0 cur pp { model := m, modelNote := if resCode r = code then "" else s!"code model={resCode r} impl={code}" } []
         | _, _, _, _ => (σ, .bad "unstake args")
-      | "unjail", [h, t, now, a, sg, fee] =>
-        match pInt h, pInt t, pInt now, pB a, pB sg, pInt fee with
-        | some h, some t, some now, some a, some sg, some fee =>
+      | "unjail", [h, t, _now, a, sg, fee] =>
+        -- (`_now` = wall clock of the harness when the transaction was delivered: informational only — since /repo 286039a
+        -- the result must not depend on it)
+        match pInt h, pInt t, pB a, pB sg, pInt fee with
+        | some h, some t, some a, some sg, some fee =>
           if !charged then unchanged h "unjail" else
-          let (m, r) := handleUnjail (withFee cur sg fee) h t now a sg
-          -- C25: an accepted unjail had an authorised signer, enough stake, a jailed node and an elapsed jail period
-          let extra : List Fail := if code ≠ "0/" then [] else match aget cur.vals a with
+          let (m, r) := handleUnjail (withFee cur sg fee) h t a sg
+          -- C25: an accepted unjail had an authorised signer, enough stake, a jailed node and an elapsed jail period …
+          let requires : List Fail := if code ≠ "0/" then [] else match aget cur.vals a with
             | some v =>
               let ju := ((aget cur.signInfo a).map (·.jailedUntil))
               fails (signerOk v.addr v.output sg && decide (v.tokens ≥ cur.params.minStake) && v.jailed &&
                      (match ju with | some j => decide (t ≥ j) | none => false)) "unjail-without-requirements"
                 s!"{rB a} signer={rB sg} tokens={v.tokens} min={cur.params.minStake} jailed={v.jailed} t={t} jailedUntil={ju}"
             | none => [("unjail-without-requirements", "no record")]
-          judge σ "unjail" h t cur pp { model := m, modelNote := if resCode r = code then "" else s!"code model={resCode r} impl={code}", extra := extra, extraProp := "C25" } []
-        | _, _, _, _, _, _ => (σ, .bad "unjail args")
+          -- … and a message meeting all of them is accepted: nothing but the store and the block time decides
+          let suff : List Fail :=
+            fails (!(r == .ok && code == "104/pos")) "unjail-depends-on-wall-clock"
+              s!"{rB a} signer={rB sg} block time {t} ≥ jailedUntil {((aget cur.signInfo a).map (·.jailedUntil))}, all conditions met, answered {code}"
+          judge σ "unjail" h t cur pp { model := m, modelNote := if resCode r = code then "" else s!"code model={resCode r} impl={code}", extra := requires ++ suff, extraProp := "C25" } []
+        | _, _, _, _, _ => (σ, .bad "unjail args")
       | "param", [h, _, _, sg, fee] =>
         match pInt h, pB sg, pInt fee with
         | some h, some sg, some fee =>
